@@ -770,6 +770,49 @@ fn compile_crosscheck(root: &Path, core_out: &Path, tables: &[Table], files: &[&
     rec.evals(ok);
 }
 
+/// the other pinned UnicodeData.txt as "another version": core build on 16.0.0, profiles build on 6.3.0
+fn cross_version_case(env: &Env, aliases: &str, rec: &mut Rec) {
+    let root: PathBuf = env.out_dir.join(format!("c15-{}-cross", std::process::id()));
+    let _ = std::fs::remove_dir_all(&root);
+    let d = ucd::data_dir();
+    let rd = |p: &str| std::fs::read_to_string(d.join(p)).unwrap_or_default();
+    let files = InputFiles {
+        unicode_data: rd("ucd16/UnicodeData.txt"),
+        prop_list: rd("ucd6/PropList.txt"),
+        dcp: rd("ucd6/DerivedCoreProperties.txt"),
+        hst: rd("ucd6/HangulSyllableType.txt"),
+        scripts: rd("ucd6/Scripts.txt"),
+        djt: rd("ucd6/extracted/DerivedJoiningType.txt"),
+    };
+    let case = format!("seed={};case=cross;input=cross-version", env.seed);
+    if write_dir(&root, &files, aliases).is_err() {
+        rec.note("HARNESS-ERROR: cannot write UCD directory");
+        return;
+    }
+    rec.nontrivial("core:cross-version(UnicodeData 16.0.0 with 6.3.0 property files)", &"cross-core", || case.clone());
+    match run_build(&root, true) {
+        Ok(()) => {
+            let g = core_truths(&files);
+            let _ = check_core_output(&root.join("out"), &g, &case, rec);
+        }
+        Err(e) => rec.violation("generator-failed-on-well-formed-input", Witness { op: "precis-core/build.rs main()".into(), case: case.clone(), expected: "tables".into(), observed: e }),
+    }
+    let root2 = root.join("profiles");
+    let text = rd("ucd6/UnicodeData.txt");
+    let f2 = InputFiles { unicode_data: text.clone(), prop_list: String::new(), dcp: String::new(), hst: String::new(), scripts: String::new(), djt: String::new() };
+    if write_dir(&root2, &f2, aliases).is_ok() {
+        rec.nontrivial("profiles:cross-version(UnicodeData 6.3.0)", &"cross-profiles", || case.clone());
+        match run_build(&root2, false) {
+            Ok(()) => {
+                let ud = UnicodeData::from_text(&text);
+                let _ = check_profiles_output(&root2.join("out"), &ud, &case, rec);
+            }
+            Err(e) => rec.violation("generator-failed-on-well-formed-input", Witness { op: "precis-profiles/build.rs main()".into(), case, expected: "tables".into(), observed: e }),
+        }
+    }
+    let _ = std::fs::remove_dir_all(&root);
+}
+
 fn one_case(env: &Env, id: usize, rng: &mut Rng, base6: &[Entry], base16: &[Entry], aliases: &str, pinned: bool, compile: bool, rec: &mut Rec) {
     let root: PathBuf = env.out_dir.join(format!("c15-{}-{}", std::process::id(), id));
     let _ = std::fs::remove_dir_all(&root);
@@ -937,6 +980,9 @@ pub fn run(env: &Env) -> Rec {
     if shard == 0 {
         let mut rng = Rng::stream(env.seed, 0x15_FFFF);
         one_case(env, usize::MAX - 1, &mut rng, &base6, &base16, &aliases, true, true, &mut rec);
+    }
+    if shard == 1 % nshards {
+        cross_version_case(env, &aliases, &mut rec);
     }
     for id in (0..total).filter(|i| i % nshards == shard) {
         // the case depends only on (seed, id), not on the sharding
